@@ -250,17 +250,25 @@ Definition doc_fields (d : document) : nat :=
                             | DOp o => fold_left (fun n y => n + count_fields y) (o_sels o) 0
                             | DFrag f => fold_left (fun n y => n + count_fields y) (fr_sels f) 0
                             end) d 0.
+(* the quadratic part, (ng+5)*(2*nf^2) + 2*ng^2 + ng + 4, built with the tail-recursive addition
+   and multiplication of the standard library (Nat.tail_add_spec / Nat.tail_mul_spec): the
+   extracted code rebuilds this unary number for every selection set *)
+Definition merge_fuel_extra (nf ng : nat) : nat :=
+  Nat.tail_add (Nat.tail_mul (ng + 5) (Nat.tail_mul 2 (Nat.tail_mul nf nf))) (2 * (ng * ng) + ng + 4).
 Definition merge_fuel (d : document) : nat :=
   let nf := doc_fields d in
   let ng := List.length (fragments_of d) in
-  4 * (nf + 2) * (4 + 3 * ng) + 16.
+  4 * (nf + 2) * (4 + 3 * ng) + 16 + merge_fuel_extra nf ng.
 
 Record ofm_state := mkOfm { ofm_compared : pairset; ofm_res : rule_result }.
 
-Definition ofm_step (s : sdocument) (d : document) (st : ofm_state) (e : event) (c : ctx) : ofm_state :=
+(* the step with an explicit fuel; [ofm_step] supplies [merge_fuel d].  [ofm_step s d] is a partial
+   application, so the extracted code builds the (large, unary) fuel once per run of the rule and
+   not once per selection set *)
+Definition ofm_step_with (fuel : nat) (s : sdocument) (d : document) (st : ofm_state) (e : event) (c : ctx) : ofm_state :=
   match e with
   | Enter (NSelectionSet _ sels) =>
-      match mrun (merge_fuel d) s d (CWithinSelectionSet (current_parent_type c) sels)
+      match mrun fuel s d (CWithinSelectionSet (current_parent_type c) sels)
                  (mkMS (ofm_compared st) [] []) with
       | Some (ms, cs) =>
           mkOfm (ms_compared ms)
@@ -271,3 +279,6 @@ Definition ofm_step (s : sdocument) (d : document) (st : ofm_state) (e : event) 
       end
   | _ => st
   end.
+
+Definition ofm_step (s : sdocument) (d : document) : ofm_state -> event -> ctx -> ofm_state :=
+  ofm_step_with (merge_fuel d) s d.
